@@ -6,6 +6,8 @@ import (
 	"strings"
 	"time"
 
+	"verifharness/internal/render"
+
 	"github.com/crillab/gophersat/maxsat"
 	"github.com/crillab/gophersat/solver"
 )
@@ -51,6 +53,8 @@ func Scan(c Case) (out Case) {
 			sc.maxsat()
 		case "cpunsat":
 			sc.cpUnsat()
+		case "opb":
+			sc.opb()
 		default:
 			panic("harness: unknown scan mode " + str(c, "mode"))
 		}
@@ -854,5 +858,101 @@ func (sc *scanner) cpUnsat() {
 	})
 	if ok && indet && st == solver.Unsat {
 		sc.found = append(sc.found, M{"n": n, "cons": cons, "cp": true})
+	}
+}
+
+// ---- OPB texts: relations >= and =, coefficients of both signs; the parsed problem is SOLVED ---------
+
+func (sc *scanner) opb() {
+	r := sc.r
+	n := 3 + r.Intn(7)
+	var cons []M
+	for j := 1 + r.Intn(4); j > 0; j-- {
+		k := 2 + r.Intn(minInt(n, 5)-1)
+		lits := randClauseN(r, n, k)
+		ws := make([]int, k)
+		lo, hi := 0, 0
+		for x := range ws {
+			ws[x] = 1 + r.Intn(4)
+			if r.Intn(3) == 0 {
+				ws[x] = -ws[x]
+			}
+			if ws[x] > 0 {
+				hi += ws[x]
+			} else {
+				lo += ws[x]
+			}
+		}
+		kind := []string{"gteq", "eq", "eq"}[r.Intn(3)]
+		cons = append(cons, M{"k": kind, "lits": lits, "w": ws, "rhs": lo + r.Intn(hi-lo+1)})
+	}
+	rev := make([]M, len(cons))
+	for i, k := range cons {
+		rev[len(cons)-1-i] = k
+	}
+	holds := func(m []bool, k M) bool {
+		sum := 0
+		for i, l := range k["lits"].([]int) {
+			if litHolds(m, l) {
+				sum += k["w"].([]int)[i]
+			}
+		}
+		if k["k"] == "eq" {
+			return sum == k["rhs"].(int)
+		}
+		return sum >= k["rhs"].(int)
+	}
+	type variant struct {
+		cons  []M
+		st    solver.Status
+		model []bool
+		ok    bool
+	}
+	vs := []*variant{{cons: cons}, {cons: rev}}
+	for _, v := range vs {
+		v := v
+		v.ok = sc.guarded(func() {
+			lins := make([]render.Lin, len(v.cons))
+			for i, k := range v.cons {
+				lits, ws := k["lits"].([]int), k["w"].([]int)
+				terms := make([]render.Term, len(lits))
+				for x := range lits {
+					terms[x] = render.Term{W: ws[x], Lit: lits[x]}
+				}
+				rel := ">="
+				if k["k"] == "eq" {
+					rel = "="
+				}
+				lins[i] = render.Lin{Terms: terms, Rel: rel, Rhs: k["rhs"].(int)}
+			}
+			pb, err := solver.ParseOPB(strings.NewReader(render.OPB(n, false, nil, lins, render.NewLayout(0, 0))))
+			if err != nil {
+				panic(err)
+			}
+			s := solver.New(pb)
+			v.st = s.Solve()
+			if v.st == solver.Sat {
+				v.model = append([]bool{}, s.Model()...)
+			}
+		})
+	}
+	suspicious := false
+	for _, v := range vs {
+		if !v.ok || v.st != vs[0].st {
+			suspicious = true
+		}
+		if v.ok && v.st == solver.Sat {
+			for _, k := range v.cons {
+				if !holds(v.model, k) {
+					suspicious = true
+				}
+			}
+		}
+	}
+	if !suspicious {
+		return
+	}
+	for _, v := range vs {
+		sc.found = append(sc.found, M{"n": n, "cons": v.cons})
 	}
 }
